@@ -96,6 +96,21 @@ def gen_op(ck: Check, pool: dict[str, Any]) -> dict[str, Any]:
         ck.histogram["op/mkExt"] += 1
         text, _ = fragment(rng)
         return {"op": "mkExt", "text": pool["simple"]}
+    if 0.60 <= r < 0.70:
+        ck.histogram["op/wbread"] += 1
+        n = rng.randint(2, 4)
+        cols = [f"col{j}" for j in range(n)]
+        props: dict[str, Any] = {}
+        for j, c in enumerate(cols):
+            anchored = [k for k, v in props.items() if "$anchor" in v]
+            if anchored and rng.random() < 0.3:
+                props[c] = {"$ref": "#" + rng.choice(anchored)}
+            else:
+                props[c] = {"type": "string", "$anchor": c}
+        reads = []
+        for _ in range(rng.randint(1, 3)):
+            reads.append([[f"v{j}-{rng.randint(0, 9)}" for j in range(n)], rng.sample(cols, rng.randint(1, n))])
+        return {"op": "wbread", "doc": {"type": "object", "properties": props}, "reads": reads, "alias": rng.random() < 0.4}
     if r < 0.75:
         ck.histogram["op/load"] += 1
         return {"op": "load", "types": rng.sample(["string", "decimal", "integer", "number", "null", "boolean", "float"], 3)}
@@ -150,6 +165,15 @@ def explore(ck: Check, n_hist: int, max_len: int) -> None:
                 ck.fail(f"history-dependent:{probe['op']}",
                         f"probe {probe['op']} after {len(ops)} earlier operations differs from the same probe in a fresh process "
                         f"(key {diff!r}: {str(got.get(diff))[:120]} vs {str(ref.get(diff))[:120]})", inp)
+            for o, res in zip(ops + [probe], outs + [got]):
+                if o["op"] == "wbread":
+                    ck.oracle_evaluations += 1
+                    for rd in res.get("reads", []):
+                        want = [repr(rd["row"][rd["listing"].index(nm)]) for nm in rd["names"]]
+                        if rd["values"] != want:
+                            ck.fail("history-dependent:wbread", f"workbook row {rd['row']} read by names {rd['names']} (columns listed "
+                                    f"{rd['listing']}) gives {rd['values']}; the cells under those names are {want}", {"op": public(o)})
+                            break
             imm = worker.call({"op": "check_immutable"})
             ck.oracle_evaluations += 1
             if not imm.get("immutable", False):
